@@ -99,8 +99,8 @@ def gen_program(rng, force=None):
     requirements: line, prob, python predicate over a dict name -> sampled object)."""
     mode2d = rng.random() < 0.25
     flavour = force or rng.choice(["plain", "plain", "plain", "containers", "containers", "visibility", "visibility3",
-                                   "nested", "static"])
-    if flavour.startswith("visibility"):
+                                   "nested", "static", "nonconvex"])
+    if flavour.startswith("visibility") or flavour == "nonconvex":
         mode2d = False
     L = []
     # a user requirement whose evaluation raises RejectionException beyond a threshold (`checkRequirements` must turn
@@ -113,9 +113,13 @@ def gen_program(rng, force=None):
         half = rng.choice([5, 6, 8])
     if flavour == "static":
         half = rng.choice([12, 20])
+    if flavour == "nonconvex":
+        half = 12
     ws = rng.choice(["rect", "rect", "circle", "poly", "none", "box"] if not mode2d else ["rect", "circle", "poly", "none"])
     if flavour == "visibility3":
         ws = "box"
+    if flavour == "nonconvex":
+        ws = rng.choice(["rect", "none"])
     if ws == "rect":
         L.append(f"workspace = Workspace(RectangularRegion((0, 0, 0), {fmt(rng.uniform(0, 3))}, {2 * half}, {2 * half}))")
     elif ws == "circle":
@@ -130,6 +134,24 @@ def gen_program(rng, force=None):
     span = half * rng.choice([0.6, 0.9, 1.05])   # > 1: some samples fall outside the workspace
     if flavour == "nested":
         span = half * 0.5
+    block_at = None
+    if flavour == "nonconvex":
+        # one solid block that is not convex (an extruded rectilinear L / U / T / plus outline, 10 x 10 in plan), created
+        # before, between or after the small boxes, which are sampled over the block's bounding square: candidates with a
+        # small box strictly inside an arm of the block (no surface contact) are frequent, as are boxes in its notches
+        span = 5.5
+        nobj = rng.randint(3, 5)
+        block_at = rng.choice([0, nobj - 1, nobj - 1, rng.randrange(nobj)])
+        outline = rng.choice([
+            [(0, 0), (10, 0), (10, 2.5), (2.5, 2.5), (2.5, 10), (0, 10)],                                        # L
+            [(0, 0), (10, 0), (10, 10), (7.5, 10), (7.5, 2.5), (2.5, 2.5), (2.5, 10), (0, 10)],                  # U
+            [(0, 7), (0, 10), (10, 10), (10, 7), (6.5, 7), (6.5, 0), (3.5, 0), (3.5, 7)],                        # T
+            [(3.5, 0), (6.5, 0), (6.5, 3.5), (10, 3.5), (10, 6.5), (6.5, 6.5), (6.5, 10), (3.5, 10), (3.5, 6.5),
+             (0, 6.5), (0, 3.5), (3.5, 3.5)],                                                                    # plus
+        ])
+        bh = rng.choice([2, 3])
+        L += ["import shapely.geometry", "import trimesh",
+              f"c02_mesh = trimesh.creation.extrude_polygon(shapely.geometry.Polygon({outline!r}), {bh})"]
 
     def dims():
         return (fmt(rng.uniform(0.5, 4)), fmt(rng.uniform(0.5, 4)), fmt(rng.uniform(0.5, 2.5)))
@@ -184,7 +206,16 @@ def gen_program(rng, force=None):
             w, l, h = fmt(rng.uniform(4, 7)), fmt(rng.uniform(4, 7)), fmt(rng.uniform(2, 3.5))
         elif flavour == "nested":
             w, l, h = fmt(rng.uniform(0.3, 1.2)), fmt(rng.uniform(0.3, 1.2)), fmt(rng.uniform(0.3, 1))
-        if flavour == "static" and i < nobj - 1:
+        if flavour == "nonconvex" and i == block_at:
+            pose = rng.choice(["at (0, 0, 0)", "at (0, 0, 0)", f"at ({fmt(rng.uniform(-1, 1))}, {fmt(rng.uniform(-1, 1))}, 0), facing {fmt(rng.uniform(0, 360))} deg",
+                               "at (Range(-1, 1), Range(-1, 1), 0), facing Range(0, 360) deg"])
+            L.append(f"{nm} = new Object {pose}, with shape MeshShape(c02_mesh), with width 10, with length 10, with height {bh}")
+        elif flavour == "nonconvex":
+            z = rng.choice(["0", "0", "Range(-0.4, 0.4)"])
+            yaw = rng.choice(["", ", facing Range(0, 360) deg"])
+            L.append(f"{nm} = new Object at (Range(-5.5, 5.5), Range(-5.5, 5.5), {z}){yaw}, with width {fmt(rng.uniform(0.3, 1))}, "
+                     f"with length {fmt(rng.uniform(0.3, 1))}, with height {fmt(rng.uniform(0.3, 0.9))}{extras(i)}")
+        elif flavour == "static" and i < nobj - 1:
             # objects with constant pose and size: checked at compile time by Scenario.validate as well
             x, y = (i - (nobj - 2) / 2) * 5.5 + rng.choice([0, 0.5]), rng.choice([-3, 0, 3])
             z = "" if mode2d else ", 0"
@@ -199,7 +230,7 @@ def gen_program(rng, force=None):
             L.append(f"pt = new Point at (Range(-4, 4), Range(-4, 4), {fmt(rng.uniform(0.5, 2))}), with visibleDistance {vd}")
         nwalls = rng.randint(1, 2)
         for k in range(nwalls):
-            occ = rng.choice(["", "", ", with occluding False", ", with occluding Uniform(True, False)"])
+            occ = rng.choice(["", ", with occluding False", ", with occluding Uniform(True, False)", ", with occluding Uniform(True, False)"])
             L.append(f"wall{k} = new Object at (Range(-6, 6), Range(-6, 6), 1.5), facing Range(0, 360) deg, "
                      f"with width {fmt(rng.uniform(4, 9))}, with length 0.4, with height {rng.choice([3, 5])}{occ}")
             names.append(f"wall{k}")
@@ -264,6 +295,38 @@ CORPUS = [
      "reqs": [{"line": 6, "prob": 0.5, "py": "o['ego'].position.x < o['o1'].position.x"},
               {"line": 7, "prob": 1, "py": "o['o2'].position.y > o['o1'].position.y - 2"}],
      "flavour": "corpus-crowded"},
+    # a small box sampled around an L-shaped solid created *after* it: inside an arm of the L the surfaces do not touch,
+    # so only the point-containment pass of MeshVolumeRegion.intersects (in the direction other-contains-self) sees it
+    {"code": ("import shapely.geometry\nimport trimesh\n"
+              "c02_mesh = trimesh.creation.extrude_polygon(shapely.geometry.Polygon([(0, 0), (10, 0), (10, 2), (2, 2), (2, 10), (0, 10)]), 2)\n"
+              "ego = new Object at (Range(1.5, 4.5), Range(-4.4, -1), 0), with width 0.5, with length 0.5, with height 0.5\n"
+              "blk = new Object at (0, 0, 0), with shape MeshShape(c02_mesh), with width 10, with length 10, with height 2\n"),
+     "mode2D": False, "names": ["ego", "blk"], "reqs": [], "flavour": "corpus-nonconvex-later"},
+    # the same with the solid created first (the other direction of the containment pass), in a random pose, under
+    # BasicChecker(initialCollisionCheck=True) with 3 intersection requirements: the blanket surface check the checker
+    # keeps cannot see a box strictly inside the solid (it can for convex pairs, which FCL treats as solids)
+    {"code": ("import shapely.geometry\nimport trimesh\n"
+              "c02_mesh = trimesh.creation.extrude_polygon(shapely.geometry.Polygon([(0, 0), (10, 0), (10, 10), (7, 10), (7, 3), (3, 3), (3, 10), (0, 10)]), 3)\n"
+              "ego = new Object at (Range(-1, 1), Range(-1, 1), 0), facing Range(0, 360) deg, with shape MeshShape(c02_mesh), with width 10, with length 10, with height 3\n"
+              "o1 = new Object at (Range(-5, 5), Range(-5, 5), Range(-0.5, 0.5)), facing Range(0, 360) deg, with width 0.6, with length 0.4, with height 0.5\n"
+              "o2 = new Object at (Range(-5, 5), Range(-5, 5), 0), with width 0.5, with length 0.5, with height 0.8\n"),
+     "mode2D": False, "names": ["ego", "o1", "o2"], "reqs": [], "flavour": "corpus-nonconvex-first", "variant": "basic:1"},
+    # regression for /repo commit ba8823ad: fixed objects, the earlier one with a random allowCollisions, overlapping the
+    # later one: must compile (Scenario.validate cannot decide the pair) and every scene must have the flag sampled True
+    {"code": ("ego = new Object at (0, 0, 0), with width 2, with length 2, with allowCollisions Uniform(True, False)\n"
+              "o1 = new Object at (0.7, 0.4, 0), with width 2, with length 2\n"
+              "o2 = new Object at (Range(-6, 6), Range(-6, 6), 0), facing Range(0, 360) deg, with width 1.5, with length 3\n"),
+     "mode2D": False, "names": ["ego", "o1", "o2"], "reqs": [], "flavour": "corpus-static-random-flag"},
+    # walls whose `occluding` is random on every side of the observer: a wall sampled occluding must hide what is behind it
+    {"code": ("workspace = Workspace(BoxRegion(dimensions=(40, 40, 10), position=(0, 0, 4)))\n"
+              "ego = new Object at (0, 0, 1), with width 1, with length 1, with height 1, with visibleDistance 12\n"
+              "wall0 = new Object at (Range(-0.3, 0.3), 4, 2.5), with width 9, with length 0.4, with height 7, with occluding Uniform(True, False)\n"
+              "wall1 = new Object at (Range(-0.3, 0.3), -4, 2.5), with width 9, with length 0.4, with height 7, with occluding Uniform(True, False)\n"
+              "wall2 = new Object at (4, Range(-0.3, 0.3), 2.5), facing 90 deg, with width 7, with length 0.4, with height 7, with occluding Uniform(True, False)\n"
+              "t0 = new Object visible from ego, with width 0.5, with length 0.5, with height 0.5\n"
+              "t1 = new Object visible from ego, with width 0.5, with length 0.5, with height 0.5\n"
+              "t2 = new Object visible from ego, with width 0.5, with length 0.5, with height 0.5\n"),
+     "mode2D": False, "names": ["ego", "wall0", "wall1", "wall2", "t0", "t1", "t2"], "reqs": [], "flavour": "corpus-random-occluding"},
 ]
 
 
@@ -324,6 +387,41 @@ def py_sat(margin, A, B):
         return "sep"
     if all(v is False for v in vs):
         return "pen"
+    return "und"
+
+
+def py_orient2(a, b, p):
+    return (b[0] - a[0]) * (p[1] - a[1]) - (b[1] - a[1]) * (p[0] - a[0])
+
+
+def py_point_in_mesh(margin, m, p):
+    """True = strictly inside the solid bounded by the closed mesh (any shape), at least the margin away from the plane
+    of every face; False = outside; None = undecided (degenerate position for the vertical ray)."""
+    vs, fs = m
+    hits = 0
+    for f in fs:
+        a, b, c = vs[f[0]], vs[f[1]], vs[f[2]]
+        n = v_cross(v_sub(b, a), v_sub(c, a))
+        d = v_dot(n, v_sub(p, a))
+        if n != (0, 0, 0) and not abs(d) > margin * v_n1(n):
+            return None
+        o1, o2, o3 = py_orient2(a, b, p), py_orient2(b, c, p), py_orient2(c, a, p)
+        if (o1 > 0 and o2 > 0 and o3 > 0) or (o1 < 0 and o2 < 0 and o3 < 0):
+            if d == 0:
+                return None
+            if (d > 0) != (n[2] > 0):
+                hits += 1
+        elif (o1 >= 0 and o2 >= 0 and o3 >= 0) or (o1 <= 0 and o2 <= 0 and o3 <= 0):
+            return None
+    return hits % 2 == 1
+
+
+def py_pim(margin, m, pts):
+    vs = [py_point_in_mesh(margin, m, p) for p in pts]
+    if any(v is True for v in vs):
+        return "in"
+    if all(v is False for v in vs):
+        return "out"
     return "und"
 
 
@@ -494,10 +592,14 @@ def _run_program(task):
         sc = scenic.scenarioFromString(prog["code"], mode2D=prog["mode2D"])
     except InvalidScenarioError as e:
         H(("program", "invalid:" + type(e).__name__))
+        if prog["flavour"].startswith("corpus"):
+            out["tie"].append(f"the regression program {prog['flavour']} is refused at compile time ({type(e).__name__}: {str(e)[:160]})")
         return out
     except Exception as e:
         H(("program", "compile-error:" + type(e).__name__))
         out["notes"].append(f"compile error {type(e).__name__}: {str(e)[:200]}")
+        if prog["flavour"].startswith("corpus"):
+            out["tie"].append(f"the regression program {prog['flavour']} no longer compiles ({type(e).__name__}: {str(e)[:160]})")
         return out
     H(("program", "compiled:" + prog["flavour"] + (":2D" if prog["mode2D"] else ":3D")))
     insts = list(sc._instances)
@@ -761,7 +863,9 @@ def _run_program(task):
                     H(("pair", "collisions-allowed"))
                     continue
                 if not (convex[id(oa)] and convex[id(ob)]):
-                    H(("pair", "non-convex:undecided"))
+                    # separating axes can still certify `separated` (of the convex hulls); an overlap is certified by
+                    # a vertex of one strictly inside the closed mesh of the other
+                    queries.append(("ncv", (id(oa), id(ob)), f"objects {a} and {b}"))
                     continue
                 queries.append(("sat", (id(oa), id(ob)), f"objects {a} and {b}"))
         # containment
@@ -837,6 +941,25 @@ def _run_program(task):
                 emit("sat", f"C02 sat {M} {s_mesh(A)} {s_mesh(Bm)}", py, subject + " overlap in volume although neither allows collisions",
                      "overlap" + (":2D" if prog["mode2D"] else ":3D"), "pen")
                 scene_sig.append(py[:3])
+            elif kind == "ncv":
+                A, Bm = im[key[0]], im[key[1]]
+                py = py_sat(M, A, Bm)
+                if py in ("sep0", "sep"):
+                    emit("sat", f"C02 sat {M} {s_mesh(A)} {s_mesh(Bm)}", py, subject, "overlap:nonconvex", "-")
+                    H(("pair", "non-convex:separated"))
+                    scene_sig.append("sep")
+                else:
+                    verdicts = []
+                    for X, Y, who in ((A, Bm, "first inside second"), (Bm, A, "second inside first")):
+                        pv = py_pim(M, Y, X[0])
+                        verdicts.append(pv)
+                        emit("pim", f"C02 pim {M} {s_mesh(Y)} {s_pts(X[0])}", pv,
+                             subject + f" overlap in volume (a vertex of the {who.split()[0]} lies strictly inside the solid "
+                             f"of the {who.split()[2]}; at least one of them is not convex) although neither allows collisions",
+                             "overlap:nonconvex", "in")
+                    v = "inside" if "in" in verdicts else "undecided"
+                    H(("pair", "non-convex:" + v))
+                    scene_sig.append("ncv-" + v[:3])
             elif kind == "cpoly":
                 _, h, cname = conts[key]
                 flat = S.ints(h)
@@ -901,9 +1024,13 @@ def make_tasks(ctx):
         progs.append(gen_program(rng))
     for i, p in enumerate(progs):
         variant = rng.choice(["default", "default", "pow2:8", "pow2:16", "pow2:4", "basic:1", "basic:0"])
+        if p["flavour"] in ("nested", "nonconvex") and rng.random() < 0.5:
+            # a box strictly inside another one is invisible to the blanket surface check BasicChecker(True) keeps
+            variant = "basic:1"
         if p["flavour"].startswith("corpus"):
-            variant = ["default", "pow2:8", "default"][i % 3]
-        heavy = p["flavour"].startswith("visibility") or p["flavour"].startswith("corpus-occ") or p["flavour"].startswith("corpus-non")
+            variant = p.get("variant") or ["default", "pow2:8", "default"][i % 3]
+        heavy = (p["flavour"].startswith("visibility") or p["flavour"].startswith("corpus-occ") or p["flavour"].startswith("corpus-nonvis")
+                 or p["flavour"].startswith("corpus-random-occ"))
         tasks.append({"id": i, "prog": p, "seed": rng.getrandbits(31), "variant": variant,
                       "nscenes": max(5, nscenes // 3) if heavy else nscenes, "maxit": 300 if heavy else 600,
                       "maxcalls": maxcalls // 3 if heavy else maxcalls})
@@ -968,15 +1095,39 @@ def polarity_real():
 
         def containsObject(self, o):
             return self.v
+    class RandomLike:
+        """what a property of an *unsampled* object looks like when it is random: no truth value"""
+
+        def __bool__(self):
+            raise TypeError("truth value of a random (unsampled) property")
+
+    class Unsampled:
+        """key of the sample dict: the object as the scenario holds it; its own properties are random"""
+
+        def __init__(self, tag):
+            self.tag = tag
+            self.allowCollisions = self.occluding = self.requireVisible = RandomLike()
+
+        def intersects(self, other):
+            raise TypeError("geometry of an unsampled object")
+        canSee = containsObject = intersects
+
+    def pol(f):
+        # an error of the code under test is an answer that differs from the model's, not a failure of the harness
+        try:
+            return "1" if f() else "0"
+        except Exception as e:
+            return "E:" + type(e).__name__
     res = []
+    kA, kB, kO, kC, kS, kT = (Unsampled(t) for t in "ABOCST")
     for a, b, x in ((0, 0, 1), (0, 0, 0), (1, 0, 1), (0, 1, 1), (1, 1, 1)):
         oa, ob = Obj(bool(a), bool(x)), Obj(bool(b), bool(x))
-        res.append("1" if R.IntersectionRequirement("A", "B").falsifiedByInner({"A": oa, "B": ob}) else "0")
+        res.append(pol(lambda: R.IntersectionRequirement(kA, kB).falsifiedByInner({kA: oa, kB: ob})))
     for x in (1, 0):
-        res.append("1" if R.ContainmentRequirement("O", "C").falsifiedByInner({"O": Obj(), "C": Cont(bool(x))}) else "0")
+        res.append(pol(lambda: R.ContainmentRequirement(kO, kC).falsifiedByInner({kO: Obj(), kC: Cont(bool(x))})))
     for cls in (R.VisibilityRequirement, R.NonVisibilityRequirement):
         for x in (1, 0):
-            res.append("1" if cls("S", "T", ()).falsifiedByInner({"S": Obj(see=bool(x)), "T": Obj()}) else "0")
+            res.append(pol(lambda: cls(kS, kT, ()).falsifiedByInner({kS: Obj(see=bool(x)), kT: Obj()})))
 
     class PR:
         ty = R.RequirementType.require
@@ -987,8 +1138,7 @@ def polarity_real():
             return None
     for x in (1, 0):
         val = rv_ltl.B4.FALSE if x else rv_ltl.B4.TRUE
-        cr = R.CompiledRequirement(PR(), lambda s, m, _v=val: _v, (), Prop())
-        res.append("1" if cr.falsifiedByInner({}) else "0")
+        res.append(pol(lambda: R.CompiledRequirement(PR(), lambda s, m, _v=val: _v, (), Prop()).falsifiedByInner({})))
     return res
 
 
